@@ -147,6 +147,11 @@ Request ==
            /\ nb' = Put(h, [again EXCEPT !.late = FALSE]) /\ ncre' = ncre
   /\ UNCHANGED <<own, mymac, owed, plearn, pend, sent>>
 
+\* a request that the link refused to transmit (lost before the wire) may or may not count as an attempt of the budget:
+\* Request above lets it count, this step lets it not count
+RefusedRequest == /\ IsEvent("emit") /\ Ev.cls = "req" /\ Fld(Ev, "refused", FALSE)
+                  /\ UNCHANGED <<own, mymac, nb, owed, plearn, pend, sent, ncre>>
+
 \* resolution gives up: only after the whole budget was sent (silent step; time checked at use)
 Fail == \E h \in DOMAIN nb :
   /\ nb[h].st = "resolving" /\ nb[h].nreq = Budget
@@ -188,6 +193,6 @@ End == /\ IsEvent("end") /\ owed = {} /\ plearn = {} /\ DOMAIN pend = {}
 Skip == /\ (IsEvent("note") \/ IsEvent("filldone") \/ (IsEvent("emit") /\ Ev.cls = "other"))
         /\ UNCHANGED <<own, mymac, nb, owed, plearn, pend, sent, ncre>>
 
-TNext == Reset \/ Inj \/ Add \/ DoLearn \/ Done \/ Fill \/ Reply \/ Request \/ Fail \/ Data \/ Call \/ Ret \/ End \/ Skip
+TNext == Reset \/ Inj \/ Add \/ DoLearn \/ Done \/ Fill \/ Reply \/ Request \/ RefusedRequest \/ Fail \/ Data \/ Call \/ Ret \/ End \/ Skip
 TSpec == TInit /\ [][TNext]_tvars
 ====
